@@ -7,7 +7,7 @@ import ast
 from ..cfg import build_cfg, calls_in, node_calls
 from ..core import Ctx, property_info, rule, share
 from ..model import AnalysisError, FuncInfo, walk_no_nested
-from ..q import A, Dispatch, L, passes, value_texts, call_param, leaf_conditions, arg_forms, asrc, call_name_of, flows, func_text, leaves_at, names_from_calls, node_containing, raw_forms, reach_table, cmp_atom, return_values, bound_arg, enum_members, is_self_attr, kwarg, stores, unparse
+from ..q import A, Dispatch, L, family, passes, value_texts, call_param, leaf_conditions, arg_forms, asrc, call_name_of, flows, func_text, leaves_at, names_from_calls, node_containing, raw_forms, reach_table, cmp_atom, return_values, bound_arg, enum_members, is_self_attr, kwarg, stores, unparse
 from .c03 import declare_before_use, event_grammar, writer_typestate
 
 M = "xsdata.formats.dataclass.models"
@@ -83,6 +83,47 @@ def _meta_keyword_names(build: FuncInfo) -> dict[str, str]:
     return meta_kw
 
 
+def _meta_keywords_family(ctx: Ctx, build: FuncInfo) -> dict[str, str]:
+    """``_meta_keyword_names`` plus keywords handed over as ``**mapping``: a dict display ``{"attributes": attributes, ...}`` written in place
+    or returned by a helper of the family (the classification moved into a helper that returns the keyword arguments)."""
+    out = dict(_meta_keyword_names(build))
+    fam = family(ctx.repo, build)
+    gb_ = build_cfg(build.node)
+    for c in calls_in(build.node):
+        if unparse(c.func) != "XmlMeta":
+            continue
+        for k in c.keywords:
+            if k.arg is not None:
+                continue
+            sources: list[tuple[FuncInfo, ast.AST, ast.expr]] = []
+            for leaf in leaves_at(build, c, k.value):
+                if isinstance(leaf, ast.Dict):
+                    sources.append((build, c, leaf))
+                elif isinstance(leaf, ast.Call):
+                    for h in fam:
+                        if h is not build and h.name == call_name_of(leaf):
+                            gh = build_cfg(h.node)
+                            for r in gh.returns():
+                                for l2 in leaves_at(h, r, r.ast.value) if r.ast.value is not None else []:
+                                    if isinstance(l2, ast.Dict):
+                                        sources.append((h, r, l2))
+            for h, where, d in sources:
+                for dk, dv in zip(d.keys, d.values):
+                    if isinstance(dk, ast.Constant) and isinstance(dk.value, str):
+                        gh = build_cfg(h.node)
+                        wn = where if not isinstance(where, ast.AST) else node_containing(gh, where)
+                        for leaf, chain in (flows(h, wn, dv) if wn is not None else []):
+                            if isinstance(leaf, ast.Name):
+                                out[leaf.id] = dk.value
+                            for dn in chain:
+                                st_ = dn.ast
+                                for t_ in (st_.targets if isinstance(st_, ast.Assign) else ([st_.target] if isinstance(st_, ast.AnnAssign) else [])):
+                                    if isinstance(t_, ast.Name):
+                                        out.setdefault(t_.id, dk.value)
+                        out.setdefault(unparse(dv), dk.value)
+    return out
+
+
 @rule("C01.R1")
 def kind_totality(ctx: Ctx) -> None:
     """Every XmlType constant has an evaluation, a flag, a metadata bucket, a serializer iteration and a parser lookup."""
@@ -103,7 +144,12 @@ def kind_totality(ctx: Ctx) -> None:
     if "TEXT" not in flags and else_flag:
         flags["TEXT"] = else_flag
     # bucket chain in XmlMetaBuilder.build
-    build = ctx.repo.func(f"{M}.builders:XmlMetaBuilder.build")
+    build0 = ctx.repo.func(f"{M}.builders:XmlMetaBuilder.build")
+    # the function that classifies the vars by kind flag: build itself, or the helper the loop was moved into
+    def _nflags(f: FuncInfo) -> int:
+        return len({x.attr for x in walk_no_nested(f.node) if isinstance(x, ast.Attribute) and x.attr.startswith("is_") and isinstance(x.value, ast.Name)})
+
+    build = max(family(ctx.repo, build0), key=_nflags)
     buckets: dict[str, str] = {}
 
     def flag_of(t: ast.AST):
@@ -138,7 +184,7 @@ def kind_totality(ctx: Ctx) -> None:
     if else_t:
         buckets.setdefault("is_text", sorted(else_t)[0])
     # keyword the bucket is passed as to XmlMeta(...)
-    meta_kw = _meta_keyword_names(build)
+    meta_kw = _meta_keywords_family(ctx, build0)
     for c in []:
         if unparse(c.func) == "XmlMeta":
             for k in c.keywords:
@@ -398,10 +444,11 @@ def wrapper_symmetry(ctx: Ctx) -> None:
     s = [y for y in ys if unparse(y.elts[0]).endswith("START") and L(cd, y.elts[1]) == "_.wrapper_qname"]
     e = [y for y in ys if unparse(y.elts[0]).endswith("END") and L(cd, y.elts[1]) == "_.wrapper_qname"]
     ctx.ob("writer emits START/END var.wrapper_qname around wrapped values", len(s) == 1 and len(e) == 1, at=cd, construct="wrapper bracket", msg="wrapper element not written symmetrically")
-    b = ctx.repo.func(f"{M}.builders:XmlMetaBuilder.build")
-    names = {n for n, kw in _meta_keyword_names(b).items() if kw == "wrappers"}
+    b0 = ctx.repo.func(f"{M}.builders:XmlMetaBuilder.build")
+    names = {n for n, kw in _meta_keywords_family(ctx, b0).items() if kw == "wrappers"}
     ok = any(isinstance(tgt, ast.Subscript) and isinstance(tgt.value, ast.Name) and tgt.value.id in names and "_.wrapper_qname" in arg_forms(b, st, tgt.slice) and val is not None and "_.qname" in arg_forms(b, st, val)
-             for st, tgt, val in stores(b.node))
+             for b in family(ctx.repo, b0) for st, tgt, val in stores(b.node))
+    b = b0
     ctx.ob("reader's wrappers map is keyed by var.wrapper_qname -> var.qname", ok, at=b, construct="wrappers map", msg="wrapper map built from another attribute than the one written")
     st = ctx.repo.func(f"{PAR}.bases:NodeParser.start")
     wcalls = [c for c in calls_in(st.node) if call_name_of(c) == "WrapperNode"]
